@@ -27,8 +27,8 @@ RULE = ("case = (functional/method, function or operator kind, history); non-tri
         "repetitions of the history completed (each executes the real functional and, per history, its backward passes) and K+1 census "
         "samples were taken")
 MIN_NONTRIVIAL = {"quick": 250, "thorough": 1200}
-REQUIRED_COUNTERS = {"quick": {"census_samples": 1000, "singular_fallback_taken": 8, "kept_objects_checked": 40},
-                     "thorough": {"census_samples": 5000, "singular_fallback_taken": 20, "kept_objects_checked": 200}}
+REQUIRED_COUNTERS = {"quick": {"census_samples": 1000, "singular_fallback_taken": 8, "kept_objects_checked": 40, "bigstate_retention_checked": 15},
+                     "thorough": {"census_samples": 5000, "singular_fallback_taken": 20, "kept_objects_checked": 200, "bigstate_retention_checked": 80}}
 RULE += ("; group held (vf/c19_extra.py): objects the user keeps across calls - a function wrapper made once, a Jacobian operator with a "
          "non-differentiable argument used as A of solve, float32 states of the adaptive integrators: growth census plus the set of tensors "
          "reachable from the kept object before / after the calls")
